@@ -300,7 +300,7 @@ theorem deVecCase_sim (env : Env) (vis : Visitor) (fuel : Nat) (dAny : Ty → Ty
           split
           · exact Sim.err _ _
           · exact Sim.map _ (iterV_sim _ (fun x y h5 h6 => rd_sim _ x y h5 h6) _ c d h3 h4)
-      · simp only []
+      · try simp only []
         split
         · split
           · exact Sim.err _ _
